@@ -225,20 +225,34 @@ func runC17Eval(c *Ctx) {
 					}
 					continue
 				}
-				var viol, known bool
-				if name == "either" {
-					all := true
-					known = true
-					for i := 0; i < size; i++ {
-						v, ok := t.PC[fmt.Sprintf("zero(m%d.reflectVal)", i)]
-						if !ok {
-							known = false
-						}
-						if v != 1 {
-							all = false
+				// a group clause written in pieces straight into the error buffer: one clause per separator written
+				if nW > 1 {
+					ends := 0
+					for _, e := range t.Events {
+						if e.Kind == "write" && keyOf(e.Args[0]) == "errBuf" && (strings.HasSuffix(keyOf(e.Args[1]), "valid.ErrEndFlag") || strings.HasSuffix(keyOf(e.Args[1]), `; "`)) {
+							ends++
 						}
 					}
-					viol = all
+					if ends > 0 {
+						nW = ends
+					}
+				}
+				var viol, known bool
+				if name == "either" {
+					// violated iff every member is empty: one member found non-empty settles it (the remaining
+					// members need not be looked at); "all empty" needs every member examined
+					allZero, someNonZero := true, false
+					for i := 0; i < size; i++ {
+						v, ok := t.PC[fmt.Sprintf("zero(m%d.reflectVal)", i)]
+						if !ok || v != 1 {
+							allZero = false
+						}
+						if ok && v == 0 {
+							someNonZero = true
+						}
+					}
+					known = allZero || someNonZero
+					viol = allZero
 				} else {
 					known = true
 					differs := false
